@@ -72,7 +72,15 @@ class Rep:
 
     # library object from reference value
     def make(self, v):
-        return self.C(np.array(v, dtype=float))
+        a = np.array(v, dtype=float)
+        try:
+            return self.C(a)
+        except ValueError:
+            # a state of the value graph that the operations themselves produced (third BFS level): a member to ~1e-13, outside the
+            # constructor's 100 eps validation band - held the way the operations hold their own results, without re-validation
+            if self.cname in ('SO2', 'SE2', 'SO3', 'SE3') and not ref.member_defect(a, self.cname, 1e-9):
+                return self.C(a.copy(), check=False)
+            raise
 
     def val(self, o):
         d = o.data
